@@ -14,6 +14,8 @@ def _nd(ctx, tag):
 def sig_blank_file(ctx):
     """known finding: a file without any content (empty, or only blank / white-space-only lines)"""
     p = ctx.hooks['params']
+    if p.get('hdr'):
+        return False
     conds = []
     for i in range(p.get('lines', 0)):
         k = p.get('k%d' % i)
@@ -54,6 +56,15 @@ def main(tier):
                 params['k%d' % i] = kd
                 fl['l%d' % i] = 2
             jobs.append(('cmd.VerifC09FileOnce', dict(fixlen=fl, params=params, unwind=40, exclude=exclude, timeout_ms=120000, terminal_obligations=(), hooks={'fixed_map_order': True})))
-    rs, viol = ck.run('file-once', jobs, job_timeout=150 if tier == 'quick' else 900, bounds={'lines': '0..%d' % K, 'line_kinds': 'empty | header line 1 | header line 2 | 2 symbolic bytes', 'final_newline': 'symbolic'})
+    # files that already carry the header (with or without the blank line after it) followed by 0..K short lines
+    for k in range(0, (1 if tier == 'quick' else 2) + 1):
+        for H, kinds in itertools.product((1, 2), itertools.product((0, 3), repeat=k)):
+            params = {'lines': k, 'hdr': H}
+            fl = {}
+            for i, kd in enumerate(kinds):
+                params['k%d' % i] = kd
+                fl['l%d' % i] = 2
+            jobs.append(('cmd.VerifC09FileOnce', dict(fixlen=fl, params=params, unwind=40, exclude=exclude, timeout_ms=120000, terminal_obligations=(), hooks={'fixed_map_order': True})))
+    rs, viol = ck.run('file-once', jobs, job_timeout=150 if tier == 'quick' else 900, bounds={'lines': '0..%d' % K, 'with_header': 'header (without / with the blank line after it) + 0..%d lines (empty | 2 symbolic bytes)' % (1 if tier == 'quick' else 2), 'line_kinds': 'empty | header line 1 | header line 2 | 2 symbolic bytes', 'final_newline': 'symbolic'})
     ck.triage(viol)
     return ck.finish()
